@@ -27,12 +27,16 @@ def cfg : Cfg :=
     statusBinary := Gen.C06.statusBinary
     uidKey := Gen.C06.uidKey
     uidAnchored := Gen.C06.uidAnchored
+    uidSep := ⟨Gen.C06.uidSep.1, Gen.C06.uidSep.2.1, Gen.C06.uidSep.2.2⟩
     gidKey := Gen.C06.gidKey
     gidAnchored := Gen.C06.gidAnchored
+    gidSep := ⟨Gen.C06.gidSep.1, Gen.C06.gidSep.2.1, Gen.C06.gidSep.2.2⟩
     thrKey := Gen.C06.thrKey
     thrAnchored := Gen.C06.thrAnchored
+    thrSep := ⟨Gen.C06.thrSep.1, Gen.C06.thrSep.2.1, Gen.C06.thrSep.2.2⟩
     ctxKey := Gen.C06.ctxKey
     ctxAnchored := Gen.C06.ctxAnchored
+    ctxSep := ⟨Gen.C06.ctxSep.1, Gen.C06.ctxSep.2.1, Gen.C06.ctxSep.2.2⟩
     statuses := Gen.C06.statuses }
 
 /-- configuration of the code around the parsers (Model/C06Ext.lean) -/
